@@ -392,6 +392,7 @@ def finish(prop, tier, seed, results, listing_errors, t0, quiet, repo, canaries=
     answers = native_batch(reqs, repo) if reqs else []
     violations = []
     known_lines = []
+    known_obligations = []
     os.makedirs(os.path.join(VERIF, "out", "replay", prop), exist_ok=True)
     for (r, c), ans in zip(failed, answers):
         ident = f"{r['name']}/{c['label']}"
@@ -413,6 +414,12 @@ def finish(prop, tier, seed, results, listing_errors, t0, quiet, repo, canaries=
         kf = match_known(known, prop, ident, c["failed"][0]["model"])
         if kf is not None:
             known_lines.append(f"KNOWN-FINDING: property={prop} {kf['what']} [{ident}]")
+            # a recorded finding is reported on its own line and listed separately; it is neither discharged nor a new violation
+            for o in list(obligations):
+                if o["id"] == ident:
+                    obligations.remove(o)
+                    o["status"] = "known finding (recorded in KNOWN_FINDINGS.json, replayed natively on this run)" if confirmed else "known finding"
+                    known_obligations.append(o)
             continue
         violations.append((ident, rp, confirmed))
 
@@ -483,6 +490,7 @@ def finish(prop, tier, seed, results, listing_errors, t0, quiet, repo, canaries=
             "undecided": [{"harness": h, "clause": l, "why": w[:300]} for h, l, w in undecided],
             "checker_errors": errors,
             "known_findings_matched": known_lines,
+            "known_finding_obligations": known_obligations,
             "must_fail_canaries": canary_results,
             "native_crosscheck_bounded": xcheck,
             "notes": sorted(notes),
